@@ -101,7 +101,18 @@ def search(ctx):
             found.append({"input": {"data": [ord(c) for c in s], "seed": seed}, "observed": got,
                           "expected": "a deterministic value in [0, 2^32)"})
             break
-    ctx.search_summary = {"reference_comparisons": len(latin), "range_checks": len(cs)}
+    # strings with code points above 255: the published algorithm is silent; "does not change between releases" makes the pinned
+    # release's own values the reference (corpus/murmur3_release_pins.json, written once from the commit under verification)
+    import json
+    import os
+    pins = json.load(open(os.path.join(os.path.dirname(__file__), "..", "..", "corpus", "murmur3_release_pins.json")))["pins"]
+    for pin in pins:
+        got = call_impl(f, "".join(map(chr, pin["data"])), pin["seed"])
+        if got != ("ok", pin["value"]) and list(got) != ["ok", pin["value"]]:
+            found.append({"input": {"data": pin["data"], "seed": pin["seed"]}, "observed": got, "expected": ["ok", pin["value"]],
+                          "oracle": "the value computed by the pinned release for this non-byte string (placement must not change between releases)"})
+            break
+    ctx.search_summary = {"reference_comparisons": len(latin), "range_checks": len(cs), "release_pins": len(pins)}
     return found
 
 
